@@ -350,6 +350,12 @@ func (c *Ctx) SetReport(r Report) { report = r }
 func (c *Ctx) Finish() {
 	c.mu.Lock()
 	defer c.mu.Unlock()
+	if report.Assumptions == nil {
+		report.Assumptions = []string{}
+	}
+	if report.Rule == "" {
+		report.Rule = "run ended before the workload completed (violation or watchdog); see verdict"
+	}
 	wall := time.Since(c.Start).Seconds()
 	verdict := "held"
 	code := ExitHeld
@@ -393,9 +399,13 @@ func (c *Ctx) Finish() {
 	}
 	ev := Evidence{PropertyID: c.ID, Tier: c.Tier, Seed: c.Seed, Level: "exploration", Coverage: cov,
 		Assumptions: report.Assumptions, WallS: wall, Violations: c.nviol, Verdict: verdict, Known: c.nknown}
-	os.MkdirAll(filepath.Join(c.Root, "evidence"), 0o755)
+	evDir := filepath.Join(c.Root, "evidence")
+	if d := os.Getenv("VERIF_EVIDENCE_DIR"); d != "" {
+		evDir = d // runs against a scratch copy of the repository must not overwrite the evidence of /repo
+	}
+	os.MkdirAll(evDir, 0o755)
 	b, _ := json.MarshalIndent(ev, "", " ")
-	if err := os.WriteFile(filepath.Join(c.Root, "evidence", c.ID+".json"), append(b, '\n'), 0o644); err != nil {
+	if err := os.WriteFile(filepath.Join(evDir, c.ID+".json"), append(b, '\n'), 0o644); err != nil {
 		fmt.Fprintln(os.Stderr, "BROKEN: cannot write evidence:", err)
 		os.Exit(ExitBroken)
 	}
